@@ -48,6 +48,7 @@ type artefact struct {
 }
 
 type world struct {
+	seed uint64
 	rnd  io.Reader
 	arts map[string]*artefact
 	list []*artefact
@@ -116,6 +117,14 @@ func (w *world) addPEM(name, typ string, der []byte) *artefact {
 	return w.addWrapped(name, der, func(b []byte) []byte { return pem.EncodeToMemory(&pem.Block{Type: typ, Bytes: b}) })
 }
 
+// kxRand returns a fresh deterministic reader for one side of a key agreement, so that an entry
+// point can replay exactly the exchange the confirmation artefacts were taken from.
+func (w *world) kxRand(side string) io.Reader {
+	s := mon.NewScript(nil)
+	s.Tail = mon.NewRand(w.seed, "c13.kx", side)
+	return s
+}
+
 func (w *world) get(name string) *artefact {
 	a := w.arts[name]
 	if a == nil {
@@ -172,7 +181,7 @@ func buildWorld(seed uint64) (w *world, err error) {
 	s := mon.NewScript(nil)
 	s.Tail = mon.NewRand(seed, "c13.seeds")
 	crand.Reader = s // the library's internal uses of crypto/rand.Reader become reproducible
-	w = &world{rnd: s, arts: map[string]*artefact{}}
+	w = &world{seed: seed, rnd: s, arts: map[string]*artefact{}}
 	w.msg = []byte("hostile-input seed message: 0123456789abcdef0123456789abcdef")
 	w.uid = []byte("alice")
 	w.uidB = []byte("bob")
@@ -263,9 +272,9 @@ func (w *world) buildSM2() {
 	must("kx init", err)
 	rsp, err := sm2.NewKeyExchange(w.sm2B, &w.sm2A.PublicKey, w.uidB, w.uid, 32, true)
 	must("kx resp", err)
-	rA, err := ini.InitKeyExchange(r)
+	rA, err := ini.InitKeyExchange(w.kxRand("sm2.A"))
 	must("kx A1", err)
-	rB, sB, err := rsp.RepondKeyExchange(r, rA)
+	rB, sB, err := rsp.RepondKeyExchange(w.kxRand("sm2.B"), rA)
 	must("kx B", err)
 	_, sA, err := ini.ConfirmResponder(rB, sB)
 	must("kx A", err)
@@ -651,23 +660,18 @@ func (w *world) buildSM9() {
 		must("sm9 encrypt raw "+v.name, err)
 		w.addRaw("sm9.ct.raw."+v.name, ct)
 	}
-	_, wrapped, err := pub.WrapKey(r, w.uid, 3, 32)
+	_, wrapped, err := sm9.WrapKey(r, pub, w.uid, 3, 32)
 	must("sm9 wrap", err)
 	w.addRaw("sm9.wrap.raw", wrapped)
+	_, wrappedDER, err := pub.WrapKey(r, w.uid, 3, 32) // the method returns the SM9PublicKey1 BIT STRING
+	must("sm9 wrap der", err)
+	w.add("sm9.wrap.der", wrappedDER)
 	pkg, err := pub.WrapKeyASN1(r, w.uid, 3, 32)
 	must("sm9 wrap asn1", err)
 	w.add("sm9.keypackage", pkg)
 	_, cipher, err := sm9.UnmarshalSM9KeyPackage(pkg)
 	must("sm9 key package", err)
 	w.addRaw("sm9.wrap.fromPackage", cipher)
-	// the DER form UnwrapKey(uid, cipherDer) expects: BIT STRING of the point
-	pt := wrapped
-	if len(pt) == 64 {
-		pt = append([]byte{4}, pt...)
-	}
-	bs, err := asn1.Marshal(asn1.BitString{Bytes: pt, BitLength: 8 * len(pt)})
-	must("sm9 wrap der", err)
-	w.add("sm9.wrap.der", bs)
 
 	mk := func(name string, b []byte, err error) []byte {
 		must(name, err)
@@ -715,9 +719,9 @@ func (w *world) buildSM9() {
 	// key exchange messages
 	ini := w.encUser.NewKeyExchange(w.uid, w.uidB, 16, true)
 	rsp := w.encUserB.NewKeyExchange(w.uidB, w.uid, 16, true)
-	rA, err := ini.InitKeyExchange(r, 3)
+	rA, err := ini.InitKeyExchange(w.kxRand("sm9.A"), 3)
 	must("sm9 kx A1", err)
-	rB, sB, err := rsp.RespondKeyExchange(r, 3, rA)
+	rB, sB, err := rsp.RespondKeyExchange(w.kxRand("sm9.B"), 3, rA)
 	must("sm9 kx B", err)
 	_, sA, err := ini.ConfirmResponder(rB, sB)
 	must("sm9 kx A", err)
